@@ -136,6 +136,8 @@ impl Tr {
             Tr::Op(OpRec::Clear { .. }) => "Op.clear".into(),
             Tr::Op(OpRec::Suspend { .. }) => "Op.suspend".into(),
             Tr::Op(OpRec::Transform { .. }) => "Op.transform".into(),
+            // (What the continuation of a `set_value(..).and_then_contextual(..)` saw: item number + PEEK.)
+            Tr::Observe { item, .. } if *item >= PEEK => "Peek".into(),
             Tr::Observe { .. } => "Observe".into(),
             Tr::Mark(_) => "Mark".into(),
             Tr::Failing => "Failing".into(),
@@ -143,6 +145,9 @@ impl Tr {
         }
     }
 }
+
+/// Offset that marks an observation made by a continuation closure (see `Prog::Set::peek`).
+pub const PEEK: i32 = 100;
 
 pub type SharedTrace = Arc<Mutex<Vec<(u64, Tr)>>>;
 
@@ -191,7 +196,27 @@ macro_rules! def_build {
     ($build:ident, $cont:ident, $ty:ty, $boxm:ident) => {
         pub fn $build(context: Ctx, prog: &Prog, trace: &SharedTrace) -> $ty {
             match prog {
-                Prog::Set { item, value } => {
+                Prog::Set { item, value, peek: Some(pk) } => {
+                    let (i, v, pk) = (*item, *value, *pk);
+                    let t = trace.clone();
+                    let rec = context.effect(move || push(&t, Tr::Op(OpRec::Set { item: i, value: v })));
+                    let t2 = trace.clone();
+                    let look = move |agent: &ProgAgent, _: ()| {
+                        let seen = match pk {
+                            0 => agent.v0.read(|x| *x),
+                            1 => agent.v1.read(|x| *x),
+                            _ => agent.v2.read(|x| *x),
+                        };
+                        push(&t2, Tr::Observe { item: pk + PEEK, seen: Seen::Val(seen) });
+                        UnitHandler::default()
+                    };
+                    match i {
+                        0 => rec.followed_by(context.set_value(ProgAgent::V0, v).and_then_contextual(look)).$boxm(),
+                        1 => rec.followed_by(context.set_value(ProgAgent::V1, v).and_then_contextual(look)).$boxm(),
+                        _ => rec.followed_by(context.set_value(ProgAgent::V2, v).and_then_contextual(look)).$boxm(),
+                    }
+                }
+                Prog::Set { item, value, peek: None } => {
                     let (i, v) = (*item, *value);
                     let t = trace.clone();
                     let rec = context.effect(move || push(&t, Tr::Op(OpRec::Set { item: i, value: v })));
